@@ -656,17 +656,30 @@ class Prefix:
         symbol: Optional[str] = None,
     ) -> None:
         if self._initialized:
+            # a prefix that was first created anonymously can still be given its name
+            self._register(name, symbol)
             return
 
         self.base = base
         self.exponent = exponent
-        self.name = name
-        self.symbol = symbol
+        self.name = None
+        self.symbol = None
         self._initialized = True
+        self._register(name, symbol)
+
+    def _register(self, name: Optional[str], symbol: Optional[str]) -> None:
+        if name and name in self._by_name and self._by_name[name] is not self:
+            raise ValueError(f"A prefix named {name} is already defined")
+
+        if symbol and symbol in self._by_symbol and self._by_symbol[symbol] is not self:
+            raise ValueError(f"A prefix with symbol {symbol} is already defined")
 
         if name:
+            self.name = self.name or name
             self._by_name[name] = self
+
         if symbol:
+            self.symbol = self.symbol or symbol
             self._by_symbol[symbol] = self
 
     @classmethod
